@@ -249,7 +249,13 @@ def generate(contract, cfgname, registry, repo, D=None):
         else:
             cf = mk(True); st.add_oblig('frame: %s unchanged' % a, cf.forall(0, ex.D, lambda j: cur[j] == pre[a][j]), 'frame')
     # return value shape
-    if contract.returns is not None and contract.returns != 'any':
+    if contract.returns == 'elementwise':
+        ok = isinstance(retval, (View, E.Lazy))
+        st.add_oblig('returns an array', z3.BoolVal(bool(ok)), 'post')
+        if ok:
+            f = st.elem(retval); cf = mk(True)
+            st.add_oblig('post: result[d] = ret_elem(d)', z3.And(retval.length == ex.D, cf.forall(0, ex.D, lambda j: f(j) == contract.ret_elem(cf, j))), 'post')
+    elif contract.returns is not None and contract.returns != 'any':
         want = contract.returns
         if want in contract.tuples:
             ok = isinstance(retval, tuple) and len(retval) == contract.tuples[want] and all(
@@ -381,6 +387,7 @@ class Callee:
         rv = con.returns
         if rv is None or rv == 'none': return None
         if rv == 'any': return E._Poison('return value of ' + con.qual)       # branch-dependent result: usable only as a discarded value
+        if rv == 'elementwise': return E.Lazy(ex.D, lambda i: con.ret_elem(sub2, i))      # a pure function of the coefficients: result[i] = ret_elem(i)
         if rv in con.tuples:
             return tuple(View(pnames['%s.%d' % (rv, i)], z3.IntVal(0), 1, ex.D) for i in range(con.tuples[rv]))
         if rv in pnames: return View(pnames[rv], z3.IntVal(0), 1, ex.D)
